@@ -186,6 +186,38 @@ def _neighbours(fam, arg):
     return [k for k in (arg + 1, arg - 1) if lo <= k <= hi]
 
 
+def lattice_witness(task):
+    """clause (ii) as a witness search on a finite lattice for EVERY member of a multi-dimensional family (the certified
+    cover of each member is the thorough tier's job): any lattice point whose value is below declared - tol is a
+    concrete counterexample."""
+    fam, arg, npts = task["family"], task["arg"], task["npts"]
+    keep = []
+    for nb in _neighbours(fam, arg):
+        try:
+            keep.append(_build(fam, nb))
+        except Exception:
+            pass
+    try:
+        p = _build(fam, arg)
+        f = bench.evaluator(p)
+        lo, up = bench.bounds(p)
+        pt, val = bench.declared(p)
+    except Exception as e:
+        return [f"{fam}({arg}): {type(e).__name__}: {e}"], 0
+    tol = 2e-3 * max(1.0, abs(val))
+    axes = [np.linspace(lo[i], up[i], npts) for i in range(len(lo))]
+    best, arg_best, n = np.inf, None, 0
+    for c in itertools.product(*axes):
+        v = f(c)
+        n += 1
+        if v < best:
+            best, arg_best = v, c
+    if best < val - tol:
+        return [f"{fam}({arg}): point {[float(x) for x in arg_best]} has value {best!r}, lower than the declared optimum "
+                f"{val!r} by more than {tol!r}"], n
+    return [], n
+
+
 def instance(task):
     fam, arg = task["family"], task["arg"]
     # history: the neighbouring members of the family are constructed first, in the same process - a member must not
@@ -263,8 +295,17 @@ def run(ctx):
         evals += ne
         for m in msgs:
             res.add_violation(dict(driver="declared", family=t["family"], args=t["args"], message=m, sig={}))
+    wtasks = [dict(family="Grishagin", arg=k, npts=41) for k in range(1, 101)] + \
+             [dict(family="Shekel4", arg=k, npts=11) for k in (1, 2, 3)]
+    lattice_evals = 0
+    for t, (msgs, ne) in zip(wtasks, pmap(lattice_witness, wtasks)):
+        lattice_evals += ne
+        evals += ne
+        for m in msgs:
+            res.add_violation(dict(driver="lattice", **t, message=m, sig={}))
     res.cov = dict(
         evaluations=evals, distinct_nontrivial=len(tasks), declared_point_evaluations=declared_evals,
+        lattice_witness_evaluations=lattice_evals,
         rule="one certified cover per benchmark instance (declared value at the declared point; no cell of the box below "
              "declared - 2e-3*max(1,|f*|); every cell farther than 0.5% of the side from the declared point strictly above "
              "the best value near it); distinct non-trivial = instances; evaluations = real Calculate calls",
@@ -281,6 +322,8 @@ def run(ctx):
 
 
 def replay(rec):
+    if rec.get("driver") == "lattice":
+        return lattice_witness(rec)[0]
     if rec.get("driver") == "declared":
         return declared_pass(dict(family=rec["family"], args=rec["args"]))[0]
     return instance(dict(family=rec["family"], arg=rec["arg"]))["messages"]
